@@ -27,6 +27,9 @@ type planner struct {
 	now  int64 // seconds
 	cfg  state.ClusterConfig
 	seqs map[uint64]uint64
+	// lastHealth is the last health report drawn; re-sending it is a no-op that must leave the
+	// stored report (and its applied_raft_index) alone
+	lastHealth *state.NodeHealthReport
 }
 
 func (p *planner) cur() state.ClusterState { return p.sm.Snapshot(context.Background()) }
@@ -794,6 +797,9 @@ func (p *planner) nodeHealth() command.Command {
 	r, st := p.r, p.cur()
 	c := command.Command{Kind: command.KindReportNodeHealth, ExpectedRevision: p.expected()}
 	id := uint64(1 + r.IntN(5))
+	if len(st.NodeHealthReports) > 0 && vh.Chance(r, 0.5) {
+		id = st.NodeHealthReports[r.IntN(len(st.NodeHealthReports))].NodeID // a node that already reported
+	}
 	h := state.NodeHealthReport{NodeID: id, Status: vh.Pick(r, state.NodeStatusAlive, state.NodeStatusAlive, state.NodeStatusSuspect, state.NodeStatusDown),
 		RuntimeReady: vh.Chance(r, 0.7), ObservedControlRevision: st.Revision, ObservedSlotRevision: uint64(r.IntN(2)), ReportSeq: p.seqs[id],
 		ReportedAtUnixMilli: p.now * 1000, AppliedRaftIndex: uint64(r.IntN(3))}
@@ -808,7 +814,7 @@ func (p *planner) nodeHealth() command.Command {
 			}
 		}
 	}
-	switch r.IntN(12) {
+	switch r.IntN(20) {
 	case 0:
 		h.NodeID = 9
 	case 1:
@@ -824,6 +830,8 @@ func (p *planner) nodeHealth() command.Command {
 		return c
 	}
 	c.NodeHealth = &h
+	keep := h
+	p.lastHealth = &keep
 	return c
 }
 
@@ -885,6 +893,9 @@ func (p *planner) workflow() command.Command {
 	if hasOther && vh.Chance(r, 0.5) {
 		return p.taskResult(vh.Pick(r, command.KindCompleteTask, command.KindCompleteTask, command.KindFailTask))
 	}
+	if len(st.NodeHealthReports) > 0 && vh.Chance(r, 0.12) {
+		return p.nodeHealth() // often a re-sent report: no-op that must not touch the stored one
+	}
 	settled := false
 	for _, a := range st.Slots {
 		if taskForSlot(st, a.SlotID) == nil {
@@ -910,6 +921,16 @@ func (p *planner) workflow() command.Command {
 }
 
 func (p *planner) any() command.Command {
+	if p.lastHealth != nil && vh.Chance(p.r, 0.08) {
+		h := *p.lastHealth
+		h.AppliedRaftIndex = uint64(p.r.IntN(3))
+		var exp *uint64
+		if vh.Chance(p.r, 0.5) {
+			rev := p.cur().Revision
+			exp = &rev
+		}
+		return command.Command{Kind: command.KindReportNodeHealth, ExpectedRevision: exp, NodeHealth: &h}
+	}
 	if vh.Chance(p.r, 0.45) {
 		return p.workflow()
 	}
